@@ -88,7 +88,7 @@ class Prop:
             for _ in range(1 if tier == "quick" else 2):
                 k = rng.randint(2, len(univ))
                 nodes = B.shape_to_nodes(shape, lambda i, d, s: (rng.randrange(k), None, rng.choice([None, None, None, "id1", 7])))
-                td = dict(typed=False, univ=univ, nodes=nodes, calc=None, mapper="fs", km=rng.choice(KMS), vm=rng.choice(["true", "false"]),
+                td = dict(typed=False, univ=univ, nodes=nodes, calc=None, mapper="fs", km=rng.choice(KMS + ["treedefault"]), vm=rng.choice(["true", "false"]),
                           meta=rng.choice([None, {"root": "/tmp/x"}]))
                 if valid_desc(td):
                     yield td
@@ -210,9 +210,14 @@ class Prop:
             elif canon(t2._root) != canon(t0._root) or meta != meta0:
                 fail = fail or f"transport: tree or file meta loaded from {name} differs from {name0}"
         # --- the property
+        d51 = (ms == "fs" and desc.get("km") == "treedefault"
+               and any(not n._data.is_dir for n in B.all_nodes(tree._root)))
         needs_mapper = ms == "none" and doc is not None and any(isinstance(e[1], dict) for e in doc["nodes"]) and not typed
         if doc is None:
             fail = fail or f"roundtrip: save fails with {text0!r:.300}"
+        elif d51 and isinstance(t0, KeyError) and not fail:
+            # known finding D51: the reader renames the mapper's own "s" (size) to "str"; FileSystemEntry(size=data["s"]) fails
+            fail, finding = f"D51: load fails with {t0!r} because the key_map's short name 's' is also a key of the entries", "D51"
         elif isinstance(t0, Exception):
             if not needs_mapper:
                 fail = fail or f"roundtrip: load fails with {t0!r:.300} on {text0[:400]}"
@@ -296,6 +301,9 @@ CORPUS = [
     # FileSystemTree: a file entry cloned below two directories, explicit id, custom key map
     dict(typed=False, univ=["D:src", "f:a.py:120:1700000000.5", "D:docs"], nodes=[[0, None, None, [[1, None, None, []]]], [2, None, "docs-id", [[1, None, None, []]]]],
          km="custom", vm="true", mapper="fs", meta={"root": "/tmp/x"}, calc=None),
+    # D51 (known): FileSystemTree saved with the plain Tree's default key_map: "s" is a short name AND the mapper's size key
+    dict(typed=False, univ=["D:src", "f:a.py:120:1700000000.5"], nodes=[[0, None, None, [[1, None, None, []]]]],
+         km="treedefault", vm="true", mapper="fs", meta=None, calc=None),
     # unicode, falsy explicit ids
     _d(False, ["s:\u00e4\u20ac\U0001f600", "e:1", "s:z"], [[0, None, 0, [[1, None, "", []]]], [2, None, None, [[0, None, 0, []]]]], km="custom", vm="custom",
        meta={"\u00fc": ["\u20ac"]}),
